@@ -37,6 +37,9 @@ func main() {
 	bin := flag.String("bindir", "", "directory with the built command binaries (cli engine)")
 	flag.Parse()
 
+	// (the first timer of a process registers a runtime metric; do that before the goroutine below
+	// starts reading metrics, or the race detector reports the runtime against itself)
+	time.NewTimer(time.Hour).Stop()
 	// Safety net, not an oracle: the sandbox has no memory limit, so a change that allocates
 	// without bound must not take the machine down.  The worker gives up (exit 3 = machinery
 	// trouble for the driver, which still reports what reproduces from the replay files).
